@@ -10,7 +10,7 @@ from .. import sandbox  # noqa
 
 LEVEL = 'exploration'
 RULE = (
-    'complete grid: lengths 0..64 and {100,1000,100000} x 4 (initial,final) pairs x offsets {0,5,2^40 where representable; 0.5 and -1.25 for float outputs} '
+    'complete grid: lengths 0..64 and {100,1000,100000} x 4 (initial,final) pairs x offsets {0,5,2^40,2^53+1,2^62+3 where representable (64-bit totals must come back exactly); 0.5 and -1.25 for float outputs} '
     'x dtype pairs (i4->i4,u4->u8,i8->i8,f4->f8,f8->f8,list->i8,list->u8) x out length N_out, N_out-1, N_out+1; '
     'a case is (dtype pair, N, flags, offset, outlen delta); non-trivial = distinct (dtype pair, N, flags) with N_out>=0; '
     'each case run in the production build with canaries and in the bounds-sanitized build'
@@ -70,9 +70,11 @@ def group_case(case):
             vals = rng.integers(-1000, 1000, N).astype(din)
         for initial in (False, True):
             for final in (False, True):
-                for offset in (0, 5, 2**40, 0.5, -1.25):
-                    if offset == 2**40 and dout == 'i4':
+                for offset in (0, 5, 2**40, 0.5, -1.25, 2**53 + 1, 2**62 + 3):
+                    if offset >= 2**40 and not isinstance(offset, float) and dout == 'i4':
                         continue
+                    if offset > 2**53 and dout[0] == 'f':
+                        continue  # not representable in the output type: nothing exact to expect
                     if isinstance(offset, float) and dout[0] != 'f':
                         continue  # a fractional start is only meaningful for a floating-point output
                     if dout[0] == 'u':
@@ -130,8 +132,8 @@ def group_case(case):
                         if not np.array_equal(out, exp):
                             bad = np.nonzero(out != exp)[0]
                             problems.append(dict(kind='wrong_sums', first_bad=int(bad[0]), got=out[bad[:3]].tolist(), exp=exp[bad[:3]].tolist(), **desc))
-                        elif np.dtype(dout).type(ret) != np.dtype(dout).type(total):
-                            problems.append(dict(kind='wrong_total', got=float(ret), exp=float(total), **desc))
+                        elif np.dtype(dout).type(ret) != np.dtype(dout).type(total) or (dout[0] in 'iu' and int(ret) != int(total)):
+                            problems.append(dict(kind='wrong_total', got=repr(ret), exp=repr(total), **desc))
     return dict(problems=problems[:12], nprob=len(problems), nrun=nrun, nrej=nrej)
 
 
